@@ -78,14 +78,14 @@ theorem C12_song_field_panic_iff (ts : Bytes → Bool) (b : Builder) (k v : Byte
       | error e => simp
       | ok t => simp
 
-theorem field_ne_panic (ts : Bytes → Bool) (b : Builder) (k v : Bytes) (hk : Spec.wfKey k = true) :
+theorem field_ne_panic (ts : Bytes → Bool) (b : Builder) (k v : Bytes) (hk : Spec.wfFieldName k = true) :
     b.field ts k v ≠ .panic := by
   intro h
   obtain ⟨t, ht⟩ := tryFrom_ok_of_wfKey k hk
   exact ((C12_song_field_panic_iff ts b k v).mp h).2.2.2 t ht
 
 theorem run_ne_panic (ts : Bytes → Bool) (fs : List (Bytes × Bytes))
-    (h : ∀ kv ∈ fs, Spec.wfKey kv.1 = true) : ∀ b, run ts b fs ≠ .panic := by
+    (h : ∀ kv ∈ fs, Spec.wfFieldName kv.1 = true) : ∀ b, run ts b fs ≠ .panic := by
   induction fs with
   | nil => intro b; simp [run]
   | cons kv rest ih =>
@@ -108,7 +108,7 @@ theorem run_ne_panic (ts : Bytes → Bool) (fs : List (Bytes × Bytes))
 /-- **C12, song decoders**: for every frame the protocol parser can produce (any number of fields,
 any values, any binary part), none of the three song decoders panics -/
 theorem C12_song_decoders_total (ts : Bytes → Bool) (f : AFrame)
-    (h : ∀ kv ∈ f.fields, Spec.wfKey kv.1 = true) :
+    (h : ∀ kv ∈ f.fields, Spec.wfFieldName kv.1 = true) :
     SongInQueue.fromFrameMulti ts f ≠ .panic ∧ Song.fromFrameMulti ts f ≠ .panic ∧
     SongInQueue.fromFrameSingle ts f ≠ .panic := by
   have hr := run_ne_panic ts f.fields h {}
@@ -129,7 +129,7 @@ theorem C12_song_decoders_total (ts : Bytes → Bool) (f : AFrame)
 /-- **C12, song-returning commands**: `Queue`, `QueueRange`, `CurrentSong`, `Find`, `GetPlaylist`,
 `ListAllIn`, `Add`: `response` yields a value or a typed-response error, never a panic -/
 theorem C12_song_total (ts : Bytes → Bool) (f : AFrame)
-    (h : ∀ kv ∈ f.fields, Spec.wfKey kv.1 = true) (c : SongCmd) :
+    (h : ∀ kv ∈ f.fields, Spec.wfFieldName kv.1 = true) (c : SongCmd) :
     response ts c f ≠ .panic := by
   obtain ⟨h1, h2, h3⟩ := C12_song_decoders_total ts f h
   cases c <;> simp only [response, Outcome.map, Outcome.bind]
@@ -165,7 +165,7 @@ example : response (fun _ => true) .find ⟨[(str "Track1", str "x")], none⟩ =
 
 /-! ## non-vacuity: frames within the alphabet that exercise the guarded operations -/
 example : ∀ kv ∈ [(str "file", str "a"), (str "x-custom_TAG", str "v"), (str "Pos", str "-1")],
-    Spec.wfKey kv.1 = true := by decide +kernel
+    Spec.wfFieldName kv.1 = true := by decide +kernel
 example : response (fun _ => true) .queue
     ⟨[(str "file", str "a"), (str "duration", str "18446744073709551616")], none⟩ = .terr := by decide +kernel
 def exSong : Song :=
